@@ -45,6 +45,10 @@ def installation(gen, rnd):
         C.renumber_acs(inst, sorted(rnd.sample(range(4 if gen == 4 else 8), n_acs)))
     for a in inst["acs"]:
         ab = a["ability"]
+        if gen == 4 and ab.get("groups") is not None and rnd.random() < 0.5:
+            # a console that sends the group bitmap: its legacy start/count bytes are leftovers
+            # (the library documents them as unreliable) - also for an AC that owns no group
+            ab["start"], ab["count"] = rnd.randrange(16), rnd.randint(0, 4)
         ab["modes"] = {k: rnd.random() < 0.8 for k in ab["modes"]}
         ab["fans"] = {k: rnd.random() < 0.8 for k in ab["fans"]}
         if gen == 4:
